@@ -664,8 +664,8 @@ class ConnectionChoiceNode(ChoiceNode):
 
             # Check ancestor port nodes if this is a port grouping node
             if isinstance(connector_node, ConnectorDegreeGroupingNode):
-                for prev_node in graph.predecessors(connector_node):
-                    if dsg.has_conditional_existence(prev_node):
+                for in_edge in iter_in_edges(graph, connector_node, edge_type=EdgeType.DERIVES):
+                    if dsg.has_conditional_existence(in_edge[0]):
                         return True
 
             return False
@@ -708,7 +708,10 @@ class ConnectionChoiceNode(ChoiceNode):
         for node in nodes:
             deriving_nodes = []
             if isinstance(node, ConnectorDegreeGroupingNode):
-                for prev_node in graph.predecessors(node):
+                # Members of a grouping node are the connectors deriving it (as in update_deg): a connection-exclusion
+                # edge pointing to the grouping node does not make its source a member
+                for in_edge in iter_in_edges(graph, node, edge_type=EdgeType.DERIVES):
+                    prev_node = in_edge[0]
                     if isinstance(prev_node, ConnectorNode):
                         deriving_nodes.append(prev_node)
             node_derivations[node] = deriving_nodes
